@@ -378,6 +378,66 @@ func genOracle(t *target, facts map[string]interface{}) error {
 		sources = append(sources, s)
 	}
 
+	// --- libseccomp's own syscall tables (an independent transcription of the kernel's tables for every
+	// architecture, including the ARM private range 0x0f0000+ that neither the installed x86 headers nor the
+	// Go tables list): every number is asked for its name
+	{
+		const prog = `#include <stdio.h>
+#include <stdlib.h>
+#include <seccomp.h>
+static void dump(const char *tag, unsigned int arch, unsigned int bit) {
+  for (unsigned int base = 0; base <= 0x0f0000; base += 0x0f0000)
+    for (unsigned int n = 0; n < (base ? 16 : 1200); n++) {
+      char *name = seccomp_syscall_resolve_num_arch(arch, (int)(bit | (base + n)));
+      if (name) { printf("%s %s %u\n", tag, name, base + n); free(name); }
+    }
+}
+int main(void) {
+  dump("syscallsX86_64", SCMP_ARCH_X86_64, 0); dump("syscalls386", SCMP_ARCH_X86, 0);
+  dump("syscallsX32", SCMP_ARCH_X32, 0x40000000); dump("syscallsARM", SCMP_ARCH_ARM, 0);
+  dump("syscallsAARCH64", SCMP_ARCH_AARCH64, 0);
+  return 0;
+}
+`
+		per := map[string]map[string]uint64{}
+		var lerr error
+		cfile := filepath.Join(tmp, "libseccomp.c")
+		bin := filepath.Join(tmp, "libseccomp-dump")
+		if err := os.WriteFile(cfile, []byte(prog), 0o644); err != nil {
+			lerr = err
+		} else if out, err := exec.Command("gcc", "-O0", "-o", bin, cfile, "-lseccomp").CombinedOutput(); err != nil {
+			lerr = fmt.Errorf("gcc -lseccomp: %v: %s", err, strings.TrimSpace(string(out)))
+		} else if out, err := runTimeout(tmp, 60*time.Second, bin); err != nil {
+			lerr = err
+		} else {
+			for _, l := range strings.Split(strings.TrimSpace(out), "\n") {
+				f := strings.Fields(l)
+				if len(f) != 3 {
+					continue
+				}
+				v, err := strconv.ParseUint(f[2], 10, 64)
+				if err != nil {
+					continue
+				}
+				if per[f[0]] == nil {
+					per[f[0]] = map[string]uint64{}
+				}
+				if _, dup := per[f[0]][f[1]]; !dup { // the lowest number that bears the name
+					per[f[0]][f[1]] = v
+				}
+			}
+		}
+		for _, tbl := range []string{"syscallsX86_64", "syscalls386", "syscallsX32", "syscallsARM", "syscallsAARCH64"} {
+			m := per[tbl]
+			err := lerr
+			if err == nil && len(m) < 200 {
+				err = fmt.Errorf("libseccomp resolved only %d numbers for %s", len(m), tbl)
+			}
+			add(oracleSource{ID: "libseccomp:" + tbl, Kind: "libseccomp", Table: tbl, Path: "/usr/lib/x86_64-linux-gnu/libseccomp.so (seccomp_syscall_resolve_num_arch)",
+				Note: "numbers 0..1199 and 0x0f0000..0x0f000f asked for their names; x32 numbers without __X32_SYSCALL_BIT"}, m, "", err)
+		}
+	}
+
 	// --- kernel UAPI headers
 	nrRe := regexp.MustCompile(`^__NR_([a-z0-9_]+)$`)
 	dropSentinel := func(m map[string]uint64) {
